@@ -56,7 +56,24 @@ def measured_values(fn, w):
             if bi.op == "add" and bi.ops[1]["k"] == "int" and int(bi.ops[1]["v"]) == 1 and same(fn, bi.ops[0], {"k": "inst", "v": p.id}) \
                     and outside[0]["v"]["k"] == "int" and int(outside[0]["v"]["v"]) == 1: cphi = p
         if vphi and cphi:
-            out.append((vphi[1], {"k": "inst", "v": cphi.id, "t": cphi["t"]}, hb.insts[0]))
+            v0 = vphi[1]
+            sv = strip(fn, v0)
+            if sv["k"] == "inst" and fn.imap[sv["v"]].op == "lshr" and fn.imap[sv["v"]].ops[1]["k"] == "int" and int(fn.imap[sv["v"]].ops[1]["v"]) == 8:
+                v0 = fn.imap[sv["v"]].ops[0]              # rotated form: the first shift happens in the guard in front of the loop
+            # the same count under its other names: the incremented value (exit from the latch of a do/while) and merges of these with the
+            # initial constant 1 after the loop
+            names = {cphi.id}
+            for x in cphi["incoming"]:
+                if x["b"] in body and strip(fn, x["v"])["k"] == "inst": names.add(strip(fn, x["v"])["v"])
+            grew = True
+            while grew:
+                grew = False
+                for j in fn.insts():
+                    if j.op != "phi" or j.id in names: continue
+                    vals = [strip(fn, x["v"]) for x in j["incoming"]]
+                    if any(v["k"] == "inst" and v["v"] in names for v in vals) and all((v["k"] == "inst" and v["v"] in names) or (v["k"] == "int" and int(v["v"]) == 1) for v in vals):
+                        names.add(j.id); grew = True
+            out.append((v0, {"k": "inst", "v": cphi.id, "t": cphi["t"]}, hb.insts[0], [{"k": "inst", "v": n, "t": cphi["t"]} for n in sorted(names - {cphi.id})]))
     return out
 
 
@@ -188,7 +205,8 @@ def analyse(mod, run, label, skip=()):
                   Finding("R2-overflow-path-writes-or-succeeds", fn.name, "overflow-edge", "path", "on signed overflow the function %s" % ("can still write through the varint pointer at %s" % loc(bad_w[0]) if bad_w else "does not return 0"), loc=loc(br)))
         # ---- put call(s) on the success side ----
         for put in puts:
-            dom_ok = fn.dominates(ok_succ, put.block.id) and len(fn.bmap[ok_succ].preds) == 1
+            # the no-overflow edge is the only way into its target (apart from back edges of a loop that starts there)
+            dom_ok = fn.dominates(ok_succ, put.block.id) and [pb.id for pb in fn.bmap[ok_succ].preds if not fn.dominates(ok_succ, pb.id)] == [br.block.id]
             run.check(dom_ok, "R2-put-after-overflow-check", {"fn": fn.name, "put": loc(put)},
                       Finding("R2-put-not-guarded-by-overflow-check", fn.name, "put", "call", "the write at %s is not dominated by the no-overflow edge of the checked add" % loc(put), loc=loc(put)))
             # value stored
@@ -206,19 +224,56 @@ def analyse(mod, run, label, skip=()):
         run.check(same(fn, meas[0], S), "R1-measured-value-is-stored-value", {"fn": fn.name, "measure": loc(meas[2])},
                   Finding("R1-width-of-wrong-value", fn.name, "width-computation", "value",
                           "the width computed at %s is that of a different value than the sum that is stored (the old value is measured, the new value is written): a no-grow add can write past the slot" % loc(meas[2]), loc=loc(meas[2])))
-        newW = meas[1]
+        newW = meas[1]; newWs = [meas[1]] + (list(meas[3]) if len(meas) > 3 else [])
+        def is_new(o): return any(same(fn, o, w_) for w_ in newWs)
         # ---- R3a: a put that takes an explicit width must be given the width measured for the value it stores ----
         for put in puts:
             if put.op != "call": continue
             wargs = [put.ops[k] for k in range(put["nargs"]) if not put.ops[k]["t"].endswith("*") and put.ops[k]["t"] == "i32"]
             for wa in wargs:
-                run.check(same(fn, wa, newW), "R3-explicit-width-is-measured-width", {"fn": fn.name, "put": loc(put), "callee": put.get("callee")},
+                run.check(is_new(wa), "R3-explicit-width-is-measured-width", {"fn": fn.name, "put": loc(put), "callee": put.get("callee")},
                           Finding("R3-put-with-foreign-width", fn.name, "put:%s" % put.get("callee"), "width", "%s at %s stores the sum with an explicit width that is not the width measured for the sum (e.g. the old width): in the tagged format the 2- and 3-byte classes only represent values of exactly that class, so the stored bytes decode to a different number" % (put.get("callee"), loc(put)), loc=loc(put)))
         # ---- R4 / R2b: the refusal comparison, read off the edges rather than from one statement shape ----
         fk = fn.param_index("force")
+        # the "growth was requested" flag, whatever it is called or typed: an integer parameter that is not part of the sum, for which the
+        # NoGrow entry point passes a constant.  A test of it means "forced" on the side that the NoGrow constant cannot take.
+        def arg_of(o, d=0):
+            if o["k"] == "arg": return o["v"]
+            if o["k"] == "inst" and d < 4 and fn.imap[o["v"]].op in ("zext", "sext", "trunc"): return arg_of(fn.imap[o["v"]].ops[0], d + 1)
+            return None
+        summands = {arg_of(ov.ops[0]), arg_of(ov.ops[1])}
+        nogrow = {}
+        for g in mod.defined():
+            if "nogrow" not in g.name.lower(): continue
+            for c in g.calls(fn.name):
+                for k2 in range(min(c["nargs"], len(fn.params))):
+                    if k2 in summands or fn.params[k2]["t"].endswith("*") or c.ops[k2]["k"] != "int": continue
+                    nogrow[k2] = int(c.ops[k2]["v"])
+        def under_nogrow(o, d=0):
+            """value of a condition when the flag parameters hold what the NoGrow entry point passes, or None"""
+            if d > 8: return None
+            if o["k"] == "int": return int(o["v"])
+            if o["k"] == "arg": return nogrow.get(o["v"])
+            if o["k"] != "inst": return None
+            x = fn.imap[o["v"]]
+            if x.op in ("zext", "freeze"): return under_nogrow(x.ops[0], d + 1)
+            if x.op == "trunc":
+                a = under_nogrow(x.ops[0], d + 1); bits = int(x["t"][1:]) if x["t"][1:].isdigit() else 64
+                return None if a is None else a & ((1 << bits) - 1)
+            if x.op in ("icmp", "xor", "and", "or"):
+                a, b = under_nogrow(x.ops[0], d + 1), under_nogrow(x.ops[1], d + 1)
+                if a is None or b is None: return None
+                if x.op == "icmp":
+                    r = {"eq": a == b, "ne": a != b, "ugt": a > b, "uge": a >= b, "ult": a < b, "ule": a <= b}.get(x["pred"])
+                    return None if r is None else int(r)
+                return {"xor": a ^ b, "and": a & b, "or": a | b}[x.op]
+            return None
         def norm_cond(o, truth=True, d=0):
             """(kind, truth): kind = ('cmp', icmp inst) | ('force',) | None - through zext/trunc, `x != 0`, `x == 0`, `x ^ 1`"""
             if d > 8: return None
+            if d == 0 and nogrow:
+                b0 = under_nogrow(o)
+                if b0 is not None: return (("force",), not b0)      # true exactly on the side the NoGrow constant cannot take
             if o["k"] == "arg": return (("force",), truth) if fk is not None and o["v"] == fk else None
             if o["k"] != "inst": return None
             x = fn.imap[o["v"]]
@@ -226,12 +281,12 @@ def analyse(mod, run, label, skip=()):
             if x.op == "xor" and x.ops[1]["k"] == "int" and int(x.ops[1]["v"]) & 1: return norm_cond(x.ops[0], not truth, d + 1)
             if x.op == "and" and x.ops[1]["k"] == "int" and int(x.ops[1]["v"]) == 1: return norm_cond(x.ops[0], truth, d + 1)
             if x.op == "icmp":
-                if (same(fn, x.ops[0], newW) and x.ops[1]["k"] != "int") or (same(fn, x.ops[1], newW) and x.ops[0]["k"] != "int"): return (("cmp", x), truth)      # new width against another width (a test against a constant is a validity test)
+                if (is_new(x.ops[0]) and x.ops[1]["k"] != "int") or (is_new(x.ops[1]) and x.ops[0]["k"] != "int"): return (("cmp", x), truth)      # new width against another width (a test against a constant is a validity test)
                 if x.ops[1]["k"] == "int" and int(x.ops[1]["v"]) == 0 and x["pred"] in ("ne", "eq"): return norm_cond(x.ops[0], truth if x["pred"] == "ne" else not truth, d + 1)
             return None
         def fits_when(ci, truth):
             """does (ci == truth) imply newWidth <= oldWidth?  And is the boundary exactly new <= old / new > old?"""
-            new_left = same(fn, ci.ops[0], newW); p_ = ci["pred"].lstrip("us") if ci["pred"] not in ("eq", "ne") else ci["pred"]
+            new_left = is_new(ci.ops[0]); p_ = ci["pred"].lstrip("us") if ci["pred"] not in ("eq", "ne") else ci["pred"]
             rel = {"gt": ">", "ge": ">=", "lt": "<", "le": "<=", "eq": "==", "ne": "!="}[p_]
             if not new_left: rel = {">": "<", ">=": "<=", "<": ">", "<=": ">=", "==": "==", "!=": "!="}[rel]
             if not truth: rel = {">": "<=", ">=": "<", "<": ">=", "<=": ">", "==": "!=", "!=": "=="}[rel]
